@@ -9,7 +9,7 @@
    with overflow-checks and catches unwinds), hangs (20 s watchdog) and peak heap per case (counting allocator) are
    observations of the harness on generated, mutated and random input for every entry point. *)
 From RML Require Import Model.Base Model.Amf0 Model.Chunk Model.ChunkDe Model.Messages Model.Handshake
-  Proofs.Amf0Total Proofs.TotalProofs Proofs.ChunkDeProofs.
+  Proofs.Amf0Total Proofs.TotalProofs Proofs.ChunkDeProofs Proofs.ChunkDeFuel.
 Local Open Scope N_scope.
 
 Theorem C03_message_decoder_total : forall tid data, is_value_or_error (of_payload tid data).
@@ -29,6 +29,11 @@ Proof. exact run_stage_total. Qed.
 Theorem C03_chunk_call_terminates : forall st input, snd (get_next_message st input) <> DOutOfFuel.
 Proof. exact get_next_message_terminates. Qed.
 
+(* the documented driving loop (call again until nothing is returned) ends for every input: each returned message costs
+   at least one byte of buffer or a pending stage *)
+Theorem C03_chunk_driving_loop_terminates : forall pieces s acc, snd (feed_all s pieces acc) <> Some DrvFuel.
+Proof. exact feed_all_fuel_adequate. Qed.
+
 Theorem C03_handshake_step_total : forall hmac h, match snd (hs_step hmac h) with SProgress _ | SDone _ | SFail _ => True end.
 Proof. exact hs_step_total. Qed.
 
@@ -36,4 +41,5 @@ Print Assumptions C03_message_decoder_total.
 Print Assumptions C03_amf0_decoder_total.
 Print Assumptions C03_chunk_stage_total.
 Print Assumptions C03_chunk_call_terminates.
+Print Assumptions C03_chunk_driving_loop_terminates.
 Print Assumptions C03_handshake_step_total.
